@@ -242,6 +242,14 @@ func checkC19(p *Prog, l *Ledger) {
 	}
 	// ---- S1/S4 of C08: run interprets only when no syntax error was flagged
 	checkRunPipeline(p, l, "C19/S1-pipeline")
+	// ---- lexical errors are classified 65 only if the scanner sees them: unterminated comments and strings are
+	// reported exactly when the input ends inside one, and a comment or string ends exactly where the language says
+	if run := exploreScanToken(p); run != nil {
+		l.States += run.mc.States
+		checkExtents(p, l, run.m.G, "C19/S1-lexical-errors")
+	} else {
+		l.Undecide("C19/S1-lexical-errors", "scanToken", "", "scanner not found")
+	}
 	// ---- S2
 	checkFlagWriters(p, l, "C19/S2-flag-ownership")
 	checkFlagCallers(p, l, "C19/S2-flag-ownership")
